@@ -21,6 +21,14 @@ CHECKS = {
    text="Lean theorems over the store stack appendStore→schemeStore→base map as coded: for every sequence of Puts (aggregation and sync interleaved arbitrarily — both go through the one mutex-held appendStore.Put, a regenerated lock fact) and restarts, the stored rounds are exactly 0..head, linked by previous signatures (chained) or stripped of them (unchained), the wrappers' cached head equals the stored head; a successful Put writes exactly head+1 and changes no stored round, any other Put changes nothing (re-put of the head answers 'already' iff equal); two nodes whose stores satisfy the invariant and hold only verifying beacons agree byte for byte on every common round (induction on the round, under the explicit uniqueness-of-BLS-signatures hypothesis); the repair path cannot replace a valid beacon by a different valid one. Tied to the code by running the real newAppendStore(NewSchemeStore(base)) over trimmed bolt, untrimmed bolt and memdb against the model and against a gap-free/append-only oracle.",
    note="Lean kernel + standard axioms; base store = sorted map (C18 correspondence); sync.Mutex semantics; SigUnique hypothesis; multi-node agreement is the theorem c02_agree plus C01/C10 validity, real multi-node runs are exercised under C05.",
    technique="Lean 4 proof (invariant by induction over op sequences; agreement by induction on rounds) + regenerated lock facts + differential correspondence"),
+ "C08": dict(engine="dkgsm", design="§3 C08",
+   text="Lean theorems over a model of dkg.DBState's methods and dkg.Process (two store buckets, commands, packets with the terminal-state fallback, completion/failure), the transition table regenerated from the source and tied to the protocol's table: every step keeps the status or moves it along a legal arrow from the state the event was applied to; a rejected command or packet writes nothing; the completed record changes only by a completion, which writes one whole Complete record with group and share to both buckets; the completed epoch only grows (invariant EpochInv, proved inductive and lifted to every history); a retry after abort/timeout/failure is built on the last completed epoch; ValidateProposal rejects stale/duplicate/jumping epochs, expired timeouts, thresholds out of range, unknown schemes, bad joiner signatures, and for members changed genesis parameters, dropped or unknown members and too few remaining nodes. The unrestricted 'current epoch never decreases' is refuted by a kernel-checked witness and replayed on the real code (known finding); proved under the hypothesis the proof forced. Tied to the code by running a real dkg.Process on a real bolt store against the model on generated multi-epoch histories with adversarial noise, and an independent C08 oracle on the implementation's own state dumps.",
+   note="Lean kernel + standard axioms; go2lean table extraction; harness replaces the kyber execution by Complete+SaveFinished / Failed+SaveCurrent through an export shim; timeouts >= 1 h from the wall clock; v1->v2 migration branch excluded; bbolt and TOML trusted.",
+   technique="Lean 4 proof (case analysis over the regenerated transition table, invariant by induction over histories) + differential correspondence with a real dkg.Process"),
+ "C09": dict(engine="dkgsm", design="§3 C09",
+   text="Lean theorems over the same model with idealised signatures (a signature is the pair key/message): a packet that changes anything was signed, over the message derived from the very state being stored, by the key the stored participant lists record for the claimed sender; proposal/execute/abort only from the leader, accept/reject only from a remaining member for itself; a signature by an unlisted key changes nothing; two term sets with the same signed message agree on every covered field. The parts of the statement the code does not meet are refuted by kernel-checked witnesses replayed on the real code and listed as known findings: the signed message omits the genesis seed and the participants' public keys, and a member authenticates a reshare proposal against keys supplied in the packet (address-only comparison with its group). A further defect found by the failed proof of c09_role (any member's execute packet moved a leaver to Left) was repaired in drand. Tied to the code as C08, plus a C09 oracle (signer = listed sender, entitlement, coverage, key source) on every state-changing packet.",
+   note="IdealSig (EUF-CMA idealisation) and comparison of signed messages as typed field lists are assumptions; otherwise as C08.",
+   technique="Lean 4 proof over an idealised-signature model + kernel-checked counterexamples + differential correspondence with a real dkg.Process"),
 }
 NOT_YET = {}
 for i in range(1, 21):
